@@ -108,14 +108,19 @@ def main(argv=None):
     if a.only:
         obs = [o for o in obs if o.scenario == a.only]
     kn = K.load()
-    ctx = mp.get_context('spawn')
+    # one fresh process per obligation, forked from a server that has the heavy modules imported but no solver state:
+    # every obligation sees the same z3 state, so results and timings do not depend on scheduling
+    ctx = mp.get_context('forkserver')
+    ctx.set_forkserver_preload(['numpy', 'scipy.signal', 'scipy.integrate', 'scipy.linalg', 'scipy.interpolate',
+                                'scipy.fftpack', 'z3', 'vf.harness', 'vf.engine.install', 'vf.engine.models',
+                                'vf.engine.scipy_models', 'vf.known'])
     tasks = [(prop, dict(scenario=o.scenario, params=o.params, optional=o.optional, timeout_s=o.timeout_s,
                          query_ms=o.query_ms, max_paths=o.max_paths)) for o in obs]
     # --- selftest: engine + stubs vs the real library on concrete vectors ------------------
     st_cases = 0
     st_mismatch = []
     results = []
-    with ctx.Pool(processes=a.jobs, maxtasksperchild=16) as pool:
+    with ctx.Pool(processes=a.jobs, maxtasksperchild=1) as pool:
         st_async = None
         if not a.no_selftest:
             seen = set()
